@@ -11,6 +11,7 @@ CHECK = {
         "scalar_float", "scalar_double",
         "euler_generic", "euler_pitch_limit", "euler_wrap", "euler_axis_only",
         "rotmat_generic", "rotmat_r20_limit", "quaternion_generic", "quaternion_r20_limit",
+        "quaternion_scale_almost_unit", "quaternion_scale_almost_unit_steep_pitch", "smart_near_duplicate_reinit",
         "normaliser_random", "normaliser_multiple_ulps", "normaliser_multiple_near", "normaliser_tiny",
         "rot2d", "polar_generic", "polar_axis", "polar_homogeneous",
         "spherical_generic", "spherical_pole", "spherical_axis", "spherical_homogeneous"],
@@ -22,7 +23,7 @@ CHECK = {
         "rotation.rotation_angles_quaternion.d", "rotation.rotation_angles_smart.d",
         "build.euler_matrix_vs_zyx.d", "build.euler_matrix_vs_zyx.f",
         "build.quaternion_vs_zyx.d", "build.quaternion_vs_zyx.f",
-        "build.smart_vs_zyx.d", "build.smart_vs_euler_matrix.d",
+        "build.smart_vs_zyx.d", "build.smart_vs_euler_matrix.d", "build.smart_reinit_near_vs_zyx.d",
         "proper.orthonormal.d", "proper.orthonormal.f", "proper.det.d", "proper.det.f",
         "normaliser.0_2pi.congruent.d", "normaliser.0_2pi.congruent.f",
         "normaliser.0_2pi.interval.d", "normaliser.0_2pi.interval.f",
@@ -36,11 +37,16 @@ CHECK = {
         "spherical.elevation_back.d", "spherical.elevation_back.f",
         "spherical.azimut_back.d", "spherical.azimut_back.f"],
     "required_counters": ["smart_rotation_fresh", "smart_rotation_reinitialised",
+                          "smart_rotation_near_duplicate_reinits", "smart_rotation_reinit_delta_below_1e-5",
                           "normaliser_result_at_upper_end", "spherical_inside_acos_plateau"],
     "rule": "case = (family, Scalar in {float, double}, inputs) with families: Euler angles given (roll, yaw in "
             "(-2pi,2pi): uniform, multiples of pi/2 +-0..3 ulps or +-1e-15..1e-3, tiny/denormal, +-0; |pitch| <= pi/2-1e-3: "
-            "uniform, log-spaced band 1e-12..1e-2 below the limit, the limit itself, tiny, +-0; axis-only); rotation "
-            "given as a matrix or as a unit/non-unit (norm 1e-3..1e3, either sign) quaternion built in long double from a "
+            "uniform, log-spaced band 1e-12..1e-2 below the limit, the limit itself, tiny, +-0; axis-only; the quaternion of the "
+            "angles is handed back with the same scale classes; the stateful SmartRotation3D is built fresh, re-initialised from "
+            "unrelated angles, and in half of the cases re-initialised 1..3 more times with previous+delta, |delta| log-spaced "
+            "1e-15..1e-2 on one, two or three components or exactly 0, checked after every step); rotation "
+            "given as a matrix or as a quaternion (scale classes: exactly unit, almost unit = 1+-delta with delta log-spaced "
+            "1e-8..1e-2 and drawn more often in the steep-pitch band, norm 1e-3..1e3; either sign) built in long double from a "
             "random unit quaternion or with R(2,0) log-spaced 1e-12..1e-3 below +-(1-1e-6), rounded to Scalar; normaliser "
             "inputs in (-4pi,4pi): uniform, k*pi/2 (|k|<=8) +-0..3 ulps or +-1e-16..1e-3, +-0, denormals, tiny of either "
             "sign; planar angles like roll; 2D/3D points with norm 1e-6..1e6, uniform direction, on/next to the axes and "
